@@ -376,6 +376,67 @@ print(bad); sys.exit(1 if bad else 0)
         rep.add('C14.forward_ref.not_remembered_as_failing', 'refuted', backend='runtime-contract', where=(p.stdout + p.stderr)[-300:], solver_output='bounded run-time contract (not a proof)',
                 replay=dict(reproduced=True, detail=p.stdout.strip()[-200:]), replay_script=src)
 
+def fwdref_cache(rep, prefix='C14'):
+    """forward-reference proxies memoise their referent in two module tables.  Validated-cache discipline, function mode on the real
+    property getters of BeartypeForwardRefMeta: (i) a value is left in the table only if the getter returns it normally and it has passed
+    the getter's own validation (is_hint / isinstanceable): a later query answered from the table is then the answer a first-time query
+    gives; (ii) a getter that raises leaves nothing behind (a referent that failed once is not remembered)."""
+    from pyvc import funcmode, model as M, discharge, symx
+    from pyvc.symx import Exec, St, VObj, VPy, VBool
+    import beartype._check.forward.reference._cls.fwdrefmeta as mod
+    from beartype.roar import BeartypeCallHintForwardRefException
+    uni = M.Universe(); uni.const(BeartypeCallHintForwardRefException)
+    CLS = z3.Const('proxy', M.Obj); CACHED = z3.Const('cached', M.Obj); NONE = uni.const(None)
+    for qual, getname, storename, uncachename, validname, diename, argname in (
+            ('BeartypeForwardRefMeta.__resolved_hint_beartype__', '_ref_proxy_to_resolved_hint_get', '_cache_ref_proxy_referent_hint', '_uncache_ref_proxy_referent_hint', 'is_hint', 'die_unless_hint', 'hint'),
+            ('BeartypeForwardRefMeta.__resolved_type_beartype__', '_ref_proxy_to_resolved_type_get', '_cache_ref_proxy_referent_type', None, 'is_object_isinstanceable', 'die_unless_object_isinstanceable', 'obj')):
+        short = qual.split('.')[-1].strip('_')
+        fobj, node, _ = funcmode.load('beartype/_check/forward/reference/_cls/fwdrefmeta.py', qual)
+        valid = z3.Function('valid_' + short, M.Obj, z3.BoolSort()); hit = z3.Bool('table_hit_' + short)
+        def m_get(ex, s, f, a, kw, w): return [(s2, VObj(CACHED) if b else VPy(None)) for s2, b in ex.fork(s, hit)]
+        def m_store(ex, s, f, a, kw, w):
+            kw = dict(kw); x = ex.obj(kw.get('referent_hint', kw.get('referent_type', a[1] if len(a) > 1 else None)))
+            return [(s.ev('store', x), VPy(None))]
+        def m_unc(ex, s, f, a, kw, w): return [(s.ev('uncache'), VPy(None))]
+        def m_valid(ex, s, f, a, kw, w): return [(s, VBool(valid(ex.obj(a[0]))))]
+        def m_die(ex, s, f, a, kw, w):
+            kw = dict(kw); x = ex.obj(kw[argname] if argname in kw else a[0]); outs = []
+            for s2, ok in ex.fork(s, valid(x)):
+                if ok: outs.append((s2, VPy(None)))
+                else: ex.raised.append((s2.ev('validation_raised'), symx.VExc(BeartypeCallHintForwardRefException, ())))
+            return outs
+        def m_fresh(tag): return lambda ex, s, f, a, kw, w: [(s, VObj(M.fresh(tag)))]
+        def m_bool(tag): return lambda ex, s, f, a, kw, w: [(s, VBool(M.fresh(tag, z3.BoolSort())))]
+        cm = {getattr(mod, getname): m_get, getattr(mod, storename): m_store, getattr(mod, validname): m_valid, getattr(mod, diename): m_die, mod._make_ref_proxy_exception_prefix: m_fresh('prefix')}
+        if uncachename: cm[getattr(mod, uncachename)] = m_unc
+        for nm in ('resolve_hint_pep484749_ref_object', '_resolve_hint_pep484_ref_str', 'get_hint_pep484585_generic_unsubbed_type'):
+            if hasattr(mod, nm): cm[getattr(mod, nm)] = m_fresh(nm)
+        if hasattr(mod, 'is_hint_pep484585_generic'): cm[mod.is_hint_pep484585_generic] = m_bool('is_generic')
+        ex = Exec(uni, dict(mod.__dict__), call_model=cm, name=short); ex.fields_mode = True
+        outs = ex.run_function(node, St((), (CACHED != NONE, valid(CACHED))), (VObj(CLS),), {}, fobj)       # table invariant assumed at entry: what is cached is valid
+        pr = discharge.Prover(uni.axioms())
+        n = 0
+        def net(events):
+            cur = None
+            for e in events:
+                if e[0] == 'store': cur = e[1]
+                elif e[0] == 'uncache': cur = None
+            return cur
+        for i, (s_, v) in enumerate(outs):
+            n += 1; left = net(s_.events)
+            if left is None:
+                r = pr.prove(list(s_.pc), z3.Or(z3.And(hit, ex.obj(v) == CACHED), z3.Not(hit)))
+                rep.add(f'{prefix}.fwdref.{short}.post.returns_cached_on_hit.path{i}', r.status, time=r.time, backend=r.backend)
+            else:
+                r = pr.prove(list(s_.pc), z3.And(left == ex.obj(v), valid(left)))
+                rep.add(f'{prefix}.fwdref.{short}.post.stores_only_the_validated_result.path{i}', r.status, time=r.time, backend=r.backend, reason=r.reason,
+                        where='the value left in the table is the value returned and has passed validation (table invariant re-established)')
+        for i, (s_, v) in enumerate(ex.raised):
+            n += 1; left = net(s_.events)
+            rep.add(f'{prefix}.fwdref.{short}.post.raise_leaves_nothing_cached.path{i}', 'proved' if left is None else 'refuted', backend='structural',
+                    where=f'a getter that raises ({getattr(v, "cls", v)}) leaves no referent behind: a later query must validate (and fail) again, not be answered from the table')
+        if not n: rep.error(f'{prefix}.fwdref.{short}: no path')
+
 REPR_SRC = """
 from typing import Annotated
 from beartype.vale import Is
@@ -438,12 +499,12 @@ def main(tier, seed):
     rep = report.Report('C14', tier, seed, 'proof', f'./check C14 --tier {tier}')
     for fn, args in ((memoiser, ('callable_cached', 'beartype/_util/cache/utilcachecall.py', 'callable_cached', '_callable_cached', False)),
                      (memoiser, ('method_cached_arg_by_id', 'beartype/_util/cache/utilcachecall.py', 'method_cached_arg_by_id', '_method_cached', True)),
-                     (cache_unbounded, ()), (structural, ()), (redefinition, ()), (cacheable_flag, ()), (forward_refs, ()), (coerce_transparent, ())):
+                     (cache_unbounded, ()), (structural, ()), (redefinition, ()), (cacheable_flag, ()), (forward_refs, ()), (coerce_transparent, ()), (fwdref_cache, ())):
         try: fn(rep, *args)
         except Exception: rep.error(f'C14 {fn.__name__}{args[:1]}: ' + traceback.format_exc()[-1800:])
     files = ['beartype/_util/cache/utilcachecall.py', 'beartype/_util/cache/map/utilmapunbounded.py', 'beartype/_util/cache/utilcacheclear.py', 'beartype/_decor/_type/decortype.py']
     rep.functions = ['callable_cached.<locals>._callable_cached', 'method_cached_arg_by_id.<locals>._method_cached', 'CacheUnboundedStrong.cache_or_get_cached_func_return_passed_arg',
-                     'CacheUnboundedStrong.cache_or_get_cached_value', 'coerce_hint_any', 'HintTreeCode.sanify_hint_child', 'clear_caches (structural)', '_uncache_beartype_if_type_redefined (bounded run-time contract)'] + [f'{p}@{report.src_hash(p)}' for p in files]
+                     'CacheUnboundedStrong.cache_or_get_cached_value', 'coerce_hint_any', 'HintTreeCode.sanify_hint_child', 'BeartypeForwardRefMeta.__resolved_hint_beartype__', 'BeartypeForwardRefMeta.__resolved_type_beartype__', 'clear_caches (structural)', '_uncache_beartype_if_type_redefined (bounded run-time contract)'] + [f'{p}@{report.src_hash(p)}' for p in files]
     from pyvc import model as M
     rep.trusted = ['pyvc', 'z3 5.1 / cvc5'] + M.ASSUMED_SEMANTICS + ['dict get/set identify keys modulo ==/hash and raise TypeError for an unhashable key']
     rep.assumptions = ['precondition of every memoised function: deterministic in time and a congruence for ==/hash of its arguments (exceptions are cached: a function whose failure is transient violates this - forward-reference resolution is NOT memoised by these decorators, see fwdrefmeta)',
